@@ -267,9 +267,16 @@ impl<S: Read> Master<S> {
             }
         }
         process = Limiter::create_process(self.cli.skip, self.cli.take, process);
-        for sorter in &self.cli.sort_by {
+        for (index, sorter) in self.cli.sort_by.iter().enumerate() {
             let sorter = Sorter::from_str(sorter)?;
-            let max_size = self.cli.take.map(|take| (self.cli.skip + take) as usize);
+            // Only the sorter next to the limiter sees the final order, the others must keep everything.
+            let max_size = if index == 0 {
+                self.cli
+                    .take
+                    .map(|take| self.cli.skip.saturating_add(take) as usize)
+            } else {
+                None
+            };
             process = sorter.create_processor(process, max_size);
         }
         if self.cli.unique {
